@@ -608,6 +608,14 @@ def c04(tier, seed):
     ew = seg_json(["extwipe"], timeout=300)
     run.take(ew, "attached reader across an externally damaged segment and its re-initialisation", "extwipe")
     rep.evaluations += len(ew["cases"])
+    # death at every step of the (re-)initialisation of unusable leftover files that look almost like a segment
+    hw = seg_json(["halfwipe"], timeout=300)
+    if hw["errors"]:
+        raise ToolError(f"seg halfwipe: {hw['errors'][:2]}")
+    run.take(hw, "daemon death at every step of re-initialising an unusable leftover file, restart, clients", "halfwipe")
+    rep.evaluations += hw["cases"]
+    rep.traces += hw["cases"] - len(hw["violations"])
+    rep.notes.append(f"halfwipe: {hw['cases']} cases (3 leftover files x death after 0..14 steps of ShmWriter::new), {len(hw['violations'])} with violations")
     run.explore(seed, 40 if q else 500, 400 if q else 600, wprog, rprog, crash_pct=8, what="crash/restart storms (W=7, 3 readers)")
     glob_samples(cf, rep)
     return run.finish()
